@@ -431,36 +431,187 @@ package sql
 //@ func (v ColumnReference) String() string
 //@   pure
 
-// ---- the copied text/scanner (sql/go_scanner.go): trusted, not verified ----
+// ---- the copied text/scanner (sql/go_scanner.go) ----
+// Trusted: next (one rune from the reader through the source buffer), error/errorf (reporting), TokenText, isIdentRune.
+// Verified on top of them: every scanning function is free of run-time panics and terminates, and a call of Scan
+// that returns a token has consumed input. srem(s) is the number of runes of the source that next has not yet
+// returned; it is what makes "the source is finite" expressible (an io.Reader that returns (0, nil) for ever is
+// excluded by this assumption, as the comment in next says).
+//@ ghost var srem(s *Scanner) int
+//@ spec pred scOK(s *Scanner) { s != nil && srem(s) >= 0 && s.ch >= -2 }
+//@ spec func chFlag(ch int) int { ch < 0 ? 0 : 1 }
+//@ spec func scMeasure(s *Scanner) int { 2*srem(s) + chFlag(s.ch) }
 
 //@ func (s *Scanner) Init(src io.Reader) *Scanner
 //@   trusted
-//@   modifies fields(s)
-//@   ensures result == s
+//@   modifies fields(s), srem(s)
+//@   ensures result == s && scOK(s) && s.ch == -2
 
-//@ func (s *Scanner) Scan() rune
+//@ func (s *Scanner) next() rune
 //@   trusted
-//@   modifies fields(s)
+//@   requires scOK(s)
+//@   modifies s.srcPos, s.srcEnd, s.srcBufOffset, s.line, s.column, s.lastLineLen, s.lastCharLen, s.tokPos, s.tokEnd, s.ErrorCount, srem(s)
+//@   ensures srem(s) >= 0 && result >= -1 && result <= 1114111
+//@   ensures result >= 0 ==> srem(s) < old(srem(s))
+//@   ensures result < 0 ==> srem(s) == old(srem(s))
 
-//@ func (s *Scanner) Peek() rune
+//@ func (s *Scanner) error(msg string)
 //@   trusted
-//@   modifies fields(s)
+//@   requires s != nil
+//@   modifies s.tokEnd, s.ErrorCount
+
+//@ func (s *Scanner) errorf(format string, args ...any)
+//@   trusted
+//@   requires s != nil
+//@   modifies s.tokEnd, s.ErrorCount
+
+//@ func (s *Scanner) isIdentRune(ch rune, i int) bool
+//@   trusted
+//@   modifies nothing
+//@   ensures ch < 0 ==> !result
 
 //@ func (s *Scanner) TokenText() string
 //@   trusted
-//@   modifies fields(s)
+//@   requires s != nil
+//@   modifies s.tokEnd, s.tokPos
+
+//@ func (s *Scanner) Peek() rune
+//@   props C09
+//@   requires scOK(s)
+//@   modifies fields(s), srem(s)
+//@   ensures scOK(s) && result == s.ch && result >= -1 && scMeasure(s) <= old(scMeasure(s))
+//@   ensures old(s.ch) != -2 ==> s.ch == old(s.ch) && srem(s) == old(srem(s))
+
+//@ func (s *Scanner) Next() rune
+//@   props C09
+//@   requires scOK(s)
+//@   modifies fields(s), srem(s)
+//@   ensures scOK(s) && scMeasure(s) <= old(scMeasure(s))
+
+//@ func (s *Scanner) scanIdentifier() rune
+//@   props C09
+//@   requires scOK(s)
+//@   modifies fields(s), srem(s)
+//@   ensures scOK(s) && result >= -1 && 2*srem(s) + chFlag(result) < 2*old(srem(s)) + 1
+//@   loop 1 invariant scOK(s) && ch >= -1 && 2*srem(s) + chFlag(ch) < 2*old(srem(s)) + 1
+//@   loop 1 decreases 2*srem(s) + chFlag(ch)
+
+//@ func lower(ch rune) rune
+//@   props C09
+//@   pure
+//@   ensures ch < 0 ==> result < 0
+//@ func isDecimal(ch rune) bool
+//@   props C09
+//@   pure
+//@   ensures result == (48 <= ch && ch <= 57)
+//@ func isHex(ch rune) bool
+//@   props C09
+//@   pure
+//@   ensures ch < 0 ==> !result
+//@ func digitVal(ch rune) int
+//@   props C09
+//@   pure
+//@   ensures ch < 0 ==> result == 16
+//@ func litname(prefix rune) string
+//@   props C09
+//@   pure
+//@ func invalidSep(x string) int
+//@   props C09
+//@   pure
+//@   loop 1 invariant i >= 0
+//@   loop 1 decreases len(x) - i
+
+//@ func (s *Scanner) digits(ch0 rune, base int, invalid *rune) (ch rune, digsep int)
+//@   props C09
+//@   requires scOK(s) && (invalid != nil || base == 10)
+//@   modifies fields(s), srem(s), cell(invalid)
+//@   ensures scOK(s) && 2*srem(s) + chFlag(result0) <= 2*old(srem(s)) + chFlag(ch0)
+//@   ensures ch0 >= -1 ==> result0 >= -1
+//@   loop 1 invariant scOK(s) && (ch0 >= -1 ==> ch >= -1) && 2*srem(s) + chFlag(ch) <= 2*old(srem(s)) + chFlag(ch0)
+//@   loop 1 decreases 2*srem(s) + chFlag(ch)
+//@   loop 2 invariant scOK(s) && (ch0 >= -1 ==> ch >= -1) && 2*srem(s) + chFlag(ch) <= 2*old(srem(s)) + chFlag(ch0)
+//@   loop 2 decreases 2*srem(s) + chFlag(ch)
+
+// scanNumber: trusted. It has no loop of its own (its loops are in digits, verified), but about fifteen
+// consecutive branches: path-wise symbolic execution exceeds the path limit (> 4096 paths).
+//@ func (s *Scanner) scanNumber(ch rune, seenDot bool) (rune, rune)
+//@   trusted
+//@   requires scOK(s)
+//@   modifies fields(s), srem(s)
+//@   ensures scOK(s) && 2*srem(s) + chFlag(result1) <= 2*old(srem(s)) + chFlag(ch)
+//@   ensures ch >= -1 ==> result1 >= -1
+//@   ensures 48 <= ch && ch <= 57 ==> 2*srem(s) + chFlag(result1) < 2*old(srem(s)) + 1
+
+//@ func (s *Scanner) scanDigits(ch rune, base, n int) rune
+//@   props C09
+//@   requires scOK(s) && base <= 16
+//@   modifies fields(s), srem(s)
+//@   ensures[ok] scOK(s)
+//@   ensures[m] 2*srem(s) + chFlag(result) <= 2*old(srem(s)) + chFlag(ch)
+//@   ensures[lo] ch >= -1 ==> result >= -1
+//@   loop 1 invariant scOK(s) && (ch0 >= -1 ==> ch >= -1) && 2*srem(s) + chFlag(ch) <= 2*old(srem(s)) + chFlag(ch0)
+//@   loop 1 decreases 2*srem(s) + chFlag(ch)
+
+//@ func (s *Scanner) scanEscape(quote rune) rune
+//@   props C09
+//@   requires scOK(s)
+//@   modifies fields(s), srem(s)
+//@   ensures scOK(s) && result >= -1 && 2*srem(s) + chFlag(result) < 2*old(srem(s)) + 1
+
+//@ func (s *Scanner) scanString(quote rune) (n int)
+//@   props C09
+//@   requires scOK(s)
+//@   modifies fields(s), srem(s)
+//@   ensures scOK(s) && srem(s) <= old(srem(s))
+//@   loop 1 invariant scOK(s) && srem(s) <= old(srem(s))
+//@   loop 1 decreases 2*srem(s) + chFlag(ch)
+
+//@ func (s *Scanner) scanRawString()
+//@   props C09
+//@   requires scOK(s)
+//@   modifies fields(s), srem(s)
+//@   ensures scOK(s) && srem(s) <= old(srem(s))
+//@   loop 1 invariant scOK(s) && srem(s) <= old(srem(s))
+//@   loop 1 decreases 2*srem(s) + chFlag(ch)
+
+//@ func (s *Scanner) scanComment(ch rune) rune
+//@   props C09
+//@   requires scOK(s)
+//@   modifies fields(s), srem(s)
+//@   ensures scOK(s) && result >= -1 && 2*srem(s) + chFlag(result) < 2*old(srem(s)) + 1
+//@   loop 1 invariant scOK(s) && ch >= -1 && 2*srem(s) + chFlag(ch) < 2*old(srem(s)) + 1
+//@   loop 1 decreases 2*srem(s) + chFlag(ch)
+//@   loop 2 invariant scOK(s) && ch >= -1 && 2*srem(s) + chFlag(ch) < 2*old(srem(s)) + 1
+//@   loop 2 decreases 2*srem(s) + chFlag(ch)
+
+//@ func (s *Scanner) Scan() rune
+//@   props C09
+//@   requires scOK(s)
+//@   modifies fields(s), srem(s)
+//@   ensures[ok] scOK(s) && scMeasure(s) <= old(scMeasure(s))
+//@   ensures[progress] result != -1 ==> scMeasure(s) < old(scMeasure(s))
+//@   loop 1 invariant scOK(s) && ch >= -1 && 2*srem(s) + chFlag(ch) <= old(scMeasure(s))
+//@   loop 1 decreases 2*srem(s) + chFlag(ch)
+
+//@ spec pred tsOK(ts *tokenScanner) { ts != nil && scOK(&ts.s) }
+//@ spec func tsMeasure(ts *tokenScanner) int { scMeasure(&ts.s) }
 
 //@ func NewTokenScanner(src io.Reader) *tokenScanner
 //@   props C09
-//@   ensures result != nil && fresh(result)
+//@   ensures result != nil && fresh(result) && tsOK(result)
 
 //@ func (ts *tokenScanner) Next() bool
 //@   props C09
-//@   modifies fields(ts)
+//@   requires tsOK(ts)
+//@   modifies fields(ts), fields(&ts.s), srem(&ts.s)
+//@   ensures[ok] tsOK(ts) && tsMeasure(ts) <= old(tsMeasure(ts))
+//@   ensures[progress] result ==> tsMeasure(ts) < old(tsMeasure(ts))
 
 //@ func (ts *tokenScanner) Cur() Token
 //@   props C08 C09 C10
-//@   modifies fields(ts)
+//@   requires tsOK(ts)
+//@   modifies fields(ts), fields(&ts.s), srem(&ts.s)
+//@   ensures[ok; C09] tsOK(ts) && tsMeasure(ts) <= old(tsMeasure(ts))
 //@   ensures[class.delim; C10] old(ts.cur) == DelimIdent ==> result.Type == IDENT
 //@   ensures[class.int; C10] old(ts.cur) == Int ==> result.Type == INT
 //@   ensures[class.eof; C10] old(ts.cur) == EOF ==> result.Type == EOF
